@@ -7,5 +7,8 @@ const (
 	verifPointBeforeLock  = 2 // PriorityMutex: about to take the shard mutex
 	verifPointAfterUnlock = 3 // PriorityMutex: shard mutex just released
 	verifPointAofFlushMid = 4 // AofFile.Flush: records written, values not yet
-	verifPointAofRewrite  = 5 // Aof rewrite: after each file-system mutation (5, 6, 7 ... see call sites)
+	// Aof rewrite (compaction): 5 rewriteAofFiles entered, 6 rewrite.aof.tmp written and closed, 7 an input file
+	// removed, 8 its .dat removed, 9 tmp renamed to rewrite.aof, 10 tmp.dat renamed, 11 RewriteAofFile closed the
+	// old append file, 12 RewriteAofFile opened the new one, 14 rewriteAofFiles returned
+	verifPointAofRewrite = 5
 )
